@@ -19,5 +19,6 @@ CONSTANTS
   ScionMacErrPanics = TRUE
   ScionTsOptUnchecked = TRUE
   ScionTsOptTrusted = TRUE
+  CmsgLenUnchecked = TRUE
 INVARIANTS TypeOK OutcomeConsistent
 PROPERTIES SentinelServed
